@@ -78,7 +78,8 @@ def get_shape_from_array(value, nd):
     if hasattr(value, "shape"):
         return value.shape
     elif hasattr(value, "_shape"):
-        return value._shape
+        # (views and arrays built from dimensions keep their shape in a list)
+        return tuple(value._shape)
     if hasattr(value, "lower"):  # test for string
         return ()
     elif hasattr(value, "__len__"):
